@@ -32,8 +32,9 @@ EXTENDS Integers, Sequences, FiniteSets, TLC
 CONSTANTS Ks,         \* ODS widths of the block's square that are enumerated (powers of two)
           Kinds,      \* which mutation kinds are enumerated
           AppendMax,  \* "append to the next power-of-two square" only when 2K <= AppendMax
-          Dev         \* "none": the design; "nodah": a decoder that does not compare the computed DAH
-                      \* (sensitivity run: must violate AcceptOnlyOriginal)
+          Dev         \* "none": the design; "nodah": a decoder that does not compare the computed DAH;
+                      \* "rowsonly": one that compares the row roots only (sensitivity runs: must violate
+                      \* CodeMeetsDemand)
 
 VARIABLE kase
 
@@ -118,27 +119,36 @@ ShareAt(m, t) ==
 (* ------------------------------------------------------------------ cases *)
 \* hdr: the header the response is checked against commits to the ODS of block hdr.sq whose
 \* width is hdr.k (k: the right one; k/2, 2k: a header of some other block)
-Hdrs(k) == {[sq |-> "A", k |-> k], [sq |-> "B", k |-> k]}
-           \cup (IF k >= 2 THEN {[sq |-> "A", k |-> k \div 2]} ELSE {})
-           \cup (IF 2 * k <= AppendMax THEN {[sq |-> "A", k |-> 2 * k]} ELSE {})
+\* alterations of the header's DAH itself (the header is what it is: the decoder must compare the
+\* whole DAH, it cannot assume that it is the DAH of any square): one column root replaced by the
+\* column root of B at the same index / by one of its own row roots / two column roots swapped;
+\* the same for row roots; one of each
+DahAlts == {"none", "col_other", "col_row", "col_swap", "row_other", "row_col", "row_swap", "both"}
+Hdr(sq, k, alt) == [sq |-> sq, k |-> k, alt |-> alt]
+Hdrs(k) == {Hdr("A", k, "none"), Hdr("B", k, "none")}
+           \cup (IF k >= 2 THEN {Hdr("A", k \div 2, "none")} ELSE {})
+           \cup (IF 2 * k <= AppendMax THEN {Hdr("A", 2 * k, "none")} ELSE {})
+           \cup {Hdr("A", k, al) : al \in DahAlts \ {"none"}}
 
 \* case: payload m of a square of ODS width m.k with features `feat`, checked against header hdr
 \* whose app version is in class happ, while the decoder is told class app
 Case(m, hdr, feat, happ, app) == [cls |-> "case", k |-> m.k, m |-> m, hdr |-> hdr, feat |-> feat, happ |-> happ, app |-> app]
 
-OwnHdr(k) == [sq |-> "A", k |-> k]
+OwnHdr(k) == Hdr("A", k, "none")
 AppCases(k) == {Case(M(k, "honest", 0, 0, 0, "none"), OwnHdr(k), x[1], x[2], x[3]) :
                    x \in {y \in Feats \X Apps \X Apps : ValidUnder(y[1], k, y[2])}}
 DefaultApp == "new"
 MutCases(k) == UNION {{Case(m, OwnHdr(k), "plain", DefaultApp, DefaultApp) : m \in MutsOf(kd, k)} : kd \in Kinds}
 HdrCases(k) == IF "hdr" \in Kinds
-               THEN {Case(m, h, "plain", DefaultApp, DefaultApp) : m \in MutsOf("honest", k) \cup MutsOf("allB", k), h \in Hdrs(k)}
+               THEN {Case(m, h, "plain", DefaultApp, DefaultApp) : m \in MutsOf("honest", k) \cup MutsOf("allB", k) \cup MutsOf("zeros", k), h \in Hdrs(k)}
                ELSE {}
 CasesOf(k) == (IF "app" \in Kinds THEN AppCases(k) ELSE {}) \cup MutCases(k) \cup HdrCases(k)
 
 (* ------------------------------------------------------------------ property layer *)
 \* the payload is exactly the original data square the header commits to
+\* (an altered DAH is, by collision-freeness, not the DAH of any enumerated payload)
 IsOriginal(c) ==
+    /\ c.hdr.alt = "none"
     /\ c.hdr.k = c.k
     /\ LenOf(c.m) = NN(c.k) /\ TailOf(c.m) = 0
     /\ \A t \in 0..(NN(c.k) - 1) : ShareAt(c.m, t) = Tok(c.hdr.sq, t, "none")
@@ -181,7 +191,8 @@ Code(c) ==
          ELSE IF ~ZeroSorted(c.m, k) THEN Rej({"shape"})
          ELSE LET srt == RowColSorted(c.m, k) IN
               IF srt = "no" THEN Rej({"shape"})
-              ELSE IF IsOriginal(c) \/ (Dev = "nodah" /\ srt = "yes") THEN [v |-> "accept", stages |-> {}]   \* computed DAH = header DAH
+              ELSE IF IsOriginal(c) \/ (Dev = "nodah" /\ srt = "yes")
+                      \/ (Dev = "rowsonly" /\ IsOriginal([c EXCEPT !.hdr.alt = "none"]) /\ c.hdr.alt \in {"col_other", "col_row", "col_swap"}) THEN [v |-> "accept", stages |-> {}]   \* computed DAH = header DAH
               ELSE IF srt = "maybe" THEN Rej({"shape", "dah"})
               ELSE Rej({"dah"})
 
@@ -201,6 +212,6 @@ AcceptOnlyOriginal == IsCase /\ Code(kase).v = "accept" => IsOriginal(kase)
 HonestAccepted == IsCase /\ IsOriginal(kase) /\ kase.app = kase.happ => Code(kase).v = "accept"
 \* sanity of the case space: the only original payloads are the honest one and "all of B" under B's header
 OriginalsKnown == IsCase /\ IsOriginal(kase) =>
-                    \/ kase.m.kind = "honest" /\ kase.hdr = [sq |-> "A", k |-> kase.k]
-                    \/ kase.m.kind = "allB" /\ kase.hdr = [sq |-> "B", k |-> kase.k]
+                    \/ kase.m.kind = "honest" /\ kase.hdr = Hdr("A", kase.k, "none")
+                    \/ kase.m.kind = "allB" /\ kase.hdr = Hdr("B", kase.k, "none")
 =============================================================================
